@@ -20,7 +20,10 @@ RULE = (
     "threads or as forked processes. Every lock acquire/release, file open/close, remove and the middle of every row "
     "write is a scheduling point of a cooperative scheduler that runs exactly one task at a time; the interleaving is "
     "the generated schedule (free choice lists of <=200 integers, or priority orders with 0-4 preemptions placed at "
-    "arbitrary decision indices), so every run is deterministic and replayable. Oracle: TSV model - final file = header + "
+    "arbitrary decision indices), so every run is deterministic and replayable. In addition ALL interleavings of "
+    "two tasks are enumerated depth-first over the scheduler's choice points for eight configurations (same name twice, two "
+    "names, evaluate + statistic on an empty and on a non-empty file, resumed file, two statistics; threads, and forks up "
+    "to a leaf limit). Oracle: TSV model - final file = header + "
     "exactly one complete row per distinct submitted name, each equal to the row of a sequential run; deadlock (live "
     "tasks, none runnable) = a call that blocks forever; every statistic built when the file held >=1 complete row "
     "succeeds and contains only submitted names with the sequential values. Non-trivial: >=1 switch away from a task "
@@ -75,6 +78,50 @@ def searches(tier):
     return [("threads", case_strategy("threads"), n), ("forks", case_strategy("forks"), max(10, n // 6))]
 
 
+E = lambda k: {"op": "evaluate", "subject": k}
+S = {"op": "stat"}
+DFS_CONFIGS = [
+    # (name, mode, tasks, pre, leaf limit per tier)
+    ("same_name_x2", "threads", [E(0), E(0)], 0),
+    ("two_names", "threads", [E(0), E(1)], 0),
+    ("evaluate+statistic", "threads", [E(0), S], 1),
+    ("evaluate+statistic_empty_file", "threads", [E(0), S], 0),
+    ("same_name_x2_resumed_file", "threads", [E(2), E(2)], 1),
+    ("statistic_x2", "threads", [S, S], 1),
+    ("same_name_x2_forks", "forks", [E(0), E(0)], 0),
+    ("evaluate+statistic_forks", "forks", [E(1), S], 1),
+]
+
+
+def enumerations(tier):
+    """Exhaustive exploration of *all* interleavings of two tasks (depth-first over the scheduler's
+    choice points); one configuration per shard."""
+    limit = 2600 if tier == "quick" else 200000
+    def g():
+        for name, mode, tasks, pre in DFS_CONFIGS:
+            yield {"dfs": name, "mode": mode, "tasks": tasks, "pre": pre, "limit": limit if mode == "threads" else limit // 5}
+    return [("all_interleavings_of_two_tasks", g())]
+
+
+def check_dfs(meta, stats):
+    stack = [[]]
+    n = 0
+    while stack and n < meta["limit"]:
+        prefix = stack.pop()
+        case = {"mode": meta["mode"], "tasks": meta["tasks"], "pre": meta["pre"], "schedule": {"kind": "prefix", "choices": prefix}}
+        try:
+            br = check(case, stats)
+        except Violation as v:
+            v.case = case
+            raise
+        n += 1
+        for i in range(len(prefix), len(br)):
+            for alt in range(1, br[i]):
+                stack.append(prefix + [0] * (i - len(prefix)) + [alt])
+    stats.count(f"dfs_leaves:{meta['dfs']}", n)
+    stats.count(f"dfs_{'complete' if not stack else 'truncated'}:{meta['dfs']}")
+
+
 def arrays(k):
     p, r = INPUTS[k]
     return np.array(p, dtype=np.uint8), np.array(r, dtype=np.uint8)
@@ -116,6 +163,8 @@ def cell_value(s):
 
 
 def check(case, stats):
+    if "dfs" in case:
+        return check_dfs(case, stats)
     from panoptica import Panoptica_Aggregator
 
     with H.quiet():
@@ -214,5 +263,6 @@ def check(case, stats):
                         if not H.same_value(v, cell_value(want[col]), 0):
                             raise Violation(f"statistic value {g}-{m} of subject {sn!r} is {v!r}, a sequential run records {want[col]!r}")
             stats.count("statistics_checked")
+        return getattr(ctl.schedule, "branching", None)
     finally:
         shutil.rmtree(d, ignore_errors=True)
